@@ -1586,7 +1586,7 @@ func (vm *VM) permute(es []MapEntry) []MapEntry {
 	rest := append([]MapEntry(nil), es...)
 	var out []MapEntry
 	for len(rest) > 1 {
-		k := vm.choose(len(rest))
+		k := vm.chooseLogged(len(rest))
 		out = append(out, rest[k])
 		rest = append(rest[:k], rest[k+1:]...)
 	}
